@@ -26,6 +26,8 @@ type wobj struct {
 }
 
 type wheld struct {
+	v    []interface{} // a value list passed to a variadic factory
+	vk   int           // which factory it is meant for
 	b    []byte
 	s    []string
 	m    map[string]interface{}
@@ -42,7 +44,8 @@ func snapshotOf(o wobj) string {
 	case o.msg != nil:
 		m := o.msg
 		return fmt.Sprintf("MSG name=%q S%dF%d W=%s dir=%s sid=%d sys=%x hdr=%q str=%q bytes=%x vars=%q type=%s",
-			m.Name(), m.StreamCode(), m.FunctionCode(), m.WaitBit(), m.Direction(), m.SessionID(), m.SystemBytes(), m.Header(), m.String(), m.ToBytes(), m.Variables(), m.Type())
+			m.Name(), m.StreamCode(), m.FunctionCode(), m.WaitBit(), m.Direction(), m.SessionID(), m.SystemBytes(), m.Header(), m.String(), m.ToBytes(), m.Variables(), m.Type()) +
+			completions(m.Variables(), func(f map[string]interface{}) string { return m.FillVariables(f).String() })
 	case o.ctl != nil:
 		return fmt.Sprintf("CTL type=%s bytes=%x", o.ctl.Type(), o.ctl.ToBytes())
 	default:
@@ -51,8 +54,58 @@ func snapshotOf(o wobj) string {
 			mn, mx := a.FillInStringLength()
 			s += fmt.Sprintf(" bounds=%d,%d", mn, mx)
 		}
-		return s
+		return s + completions(o.item.Variables(), func(f map[string]interface{}) string { return itemString(o.item.FillVariables(f)) })
 	}
+}
+
+// completions is the part of an object's observable state that only later fills show: what the
+// object turns into when every variable is given a value (two different value sets).
+func completions(vars []string, fill func(map[string]interface{}) string) string {
+	if len(vars) == 0 {
+		return ""
+	}
+	out := ""
+	for _, alt := range []bool{false, true} {
+		func() {
+			defer func() {
+				if r := recover(); r != nil {
+					out += fmt.Sprintf(" completion(alt=%v) refused: %v", alt, r)
+				}
+			}()
+			out += fmt.Sprintf(" completion(alt=%v)=%q", alt, fill(fillMapAlt(vars, true, alt)))
+		}()
+	}
+	return out
+}
+
+// valsFor builds the value list for factory kind k: a literal, a variable, a literal.
+func valsFor(k int) []interface{} {
+	switch k {
+	case 2:
+		return []interface{}{1.5, "f2", 2.5}
+	case 4:
+		return []interface{}{true, "t4", false}
+	case 5:
+		return []interface{}{ast.NewUintNode(1, 1), "n5", ast.NewASCIINode("q")}
+	}
+	return []interface{}{1, fmt.Sprintf("i%d", k), 3}
+}
+
+// fromVals calls factory k with the caller's slice as its variadic argument (no copy is made by the call).
+func fromVals(k int, v []interface{}) ast.ItemNode {
+	switch k {
+	case 0:
+		return ast.NewIntNode(2, v...)
+	case 1:
+		return ast.NewUintNode(1, v...)
+	case 2:
+		return ast.NewFloatNode(8, v...)
+	case 3:
+		return ast.NewBinaryNode(v...)
+	case 4:
+		return ast.NewBooleanNode(v...)
+	}
+	return ast.NewListNode(v...)
 }
 
 func (w *world) add(o wobj, birth string) {
@@ -175,6 +228,11 @@ func (w *world) enabled() []wop {
 			ops = append(ops, wop{"mut-strs", j, 0, 0})
 		case hd.m != nil:
 			ops = append(ops, wop{"map-overwrite", j, 0, 0}, wop{"map-delete", j, 0, 0}, wop{"map-insert", j, 0, 0})
+		case hd.v != nil:
+			ops = append(ops, wop{"mut-vals", j, 0, 0})
+			if room {
+				ops = append(ops, wop{"item-from-vals", j, 0, 0})
+			}
 		}
 	}
 	return ops
@@ -369,6 +427,23 @@ func (w *world) apply(o wop) (pan string) {
 		for k := range w.held[o.a].m {
 			delete(w.held[o.a].m, k)
 		}
+	case "item-from-vals":
+		w.add(wobj{item: fromVals(w.held[o.a].vk, w.held[o.a].v)}, birth)
+	case "mut-vals":
+		for i, x := range w.held[o.a].v {
+			switch t := x.(type) {
+			case int:
+				w.held[o.a].v[i] = t + 4
+			case float64:
+				w.held[o.a].v[i] = t + 4
+			case bool:
+				w.held[o.a].v[i] = !t
+			case string:
+				w.held[o.a].v[i] = t + "m"
+			default:
+				w.held[o.a].v[i] = ast.NewBinaryNode(9)
+			}
+		}
 	case "map-insert":
 		w.held[o.a].m["i0"] = 9
 		w.held[o.a].m["extra"] = "x"
@@ -428,6 +503,16 @@ func (w *world) key() string {
 			}
 		case hd.s != nil:
 			helds = append(helds, fmt.Sprintf("s:%q", hd.s))
+		case hd.v != nil:
+			var vs []string
+			for _, x := range hd.v {
+				if it, ok := x.(ast.ItemNode); ok {
+					vs = append(vs, "item:"+itemString(it))
+				} else {
+					vs = append(vs, fmt.Sprintf("%T:%v", x, x))
+				}
+			}
+			helds = append(helds, fmt.Sprintf("v%d:%s", hd.vk, strings.Join(vs, ",")))
 		default:
 			var ks []string
 			for k, v := range hd.m {
@@ -462,7 +547,8 @@ func min2(a, b int) int {
 
 // c11Roots builds the initial pools; each call returns fresh objects.
 var c11RootNames = []string{"complete-message-with-caller-owned-system-bytes", "incomplete-message-two-variables", "list-template-shared-by-two-messages",
-	"control-message-from-caller-owned-header", "decoded-message-with-kept-input-buffer", "items-of-every-kind", "empty-items-of-several-kinds", "lists-with-1-to-4-variables", "decoded-message-with-long-items-and-kept-buffer", "optional-wait-bit-message-otherwise-complete"}
+	"control-message-from-caller-owned-header", "decoded-message-with-kept-input-buffer", "items-of-every-kind", "empty-items-of-several-kinds", "lists-with-1-to-4-variables", "decoded-message-with-long-items-and-kept-buffer", "optional-wait-bit-message-otherwise-complete",
+	"numeric-items-built-from-caller-owned-value-lists", "boolean-binary-list-items-built-from-caller-owned-value-lists"}
 
 func c11Root(i int) *world {
 	w := &world{}
@@ -512,6 +598,12 @@ func c11Root(i int) *world {
 		w.hold(wheld{b: buf, from: "root"})
 		m, _ := hsms.Parse(buf)
 		w.add(wobj{msg: m.(*ast.DataMessage)}, "root")
+	case 10, 11:
+		for k := (i - 10) * 3; k < (i-10)*3+3; k++ {
+			v := valsFor(k)
+			w.hold(wheld{v: v, vk: k, from: "root"})
+			w.add(wobj{item: fromVals(k, v)}, "root")
+		}
 	case 9:
 		it := ast.NewListNode(ast.NewUintNode(2, 1, 2), ast.NewASCIINode("x"))
 		w.add(wobj{msg: ast.NewDataMessage("opt", 1, 3, 2, "H->E", it).SetSessionIDAndSystemBytes(300, []byte{4, 3, 2, 1})}, "root")
